@@ -6,7 +6,7 @@
 
 const char *MC_PROPERTY = "C07";
 const char *MC_RULE =
-    "poly(shape, anchor, scale, res): one polygon of the catalogue (13 shapes incl. concave, needle 30:1, sub-cell, 1-2 holes, hole "
+    "poly(shape, anchor, scale, res): one polygon of the catalogue (14 shapes incl. concave, needle 30:1, sub-cell, 1-2 holes, hole "
     "smaller than a cell, island-sized hole; anchors: 122 base-cell centres, res-0 cell corners, icosahedron edge midpoints and face "
     "centres, antimeridian-straddling points at 5 latitudes, near both poles; 4 scales) through polygonToCells and "
     "polygonToCellsExperimental(CENTER). Candidate cells: FULL(r) for r<=2, else the flood over the geometric graph of all cells whose "
@@ -148,7 +148,7 @@ int main(int argc, char **argv) {
     g_astep = mc_thorough ? 1 : 12;
     g_rstep = mc_thorough ? 1 : 3;
     poly_build_anchors();
-    snprintf(mc_bounds, sizeof mc_bounds, "13 shapes x 4 scales x %d anchors (%s) x resolutions %s; polygons with more than ~6000 bounding-box cells, within 9 scale units of a pole or wider than 1.2 rad are filtered out (counted)",
+    snprintf(mc_bounds, sizeof mc_bounds, "14 shapes x 4 scales x %d anchors (%s) x resolutions %s; polygons with more than ~6000 bounding-box cells, within 9 scale units of a pole or wider than 1.2 rad are filtered out (counted)",
              poly_nanchor, mc_thorough ? "all" : "all special anchors + every 12th base-cell centre/corner", mc_thorough ? "0..15" : "0,3,..,15 and 1,4,..,13 / 2,5,..,14 (sparser anchors)");
     int r0 = 0;
     mc_phase("catalogue", ph_poly, &r0);
